@@ -35,3 +35,17 @@ ENTRY = {
 ENTRY["streams"] = ENTRY["streams"] + [{"name": "cache", "drive": "drive-cache", "model": "drv-dutiescache", "reset_ops": ["cfg"],
                                         "n_quick": 30000, "seeds_quick": 1, "n_thorough": 300000, "seeds_thorough": 2, "search_seeds": 1}]
 ENTRY["monitor_sigs"] = list(ENTRY.get("monitor_sigs") or ["sched:"]) + ["dutiescache:stale_after_invalidate", "dutiescache:answer_differs", "dutiescache:"]
+
+# The validator cache (app/eth2wrap/cache.go ValidatorCache) decides in production which validators the scheduler
+# sees as active: model Model/ValCache.lean, theorems Props/C15ValCache.lean, stream valcache (real cache wired as in
+# app.go, the real Scheduler resolving through it).
+from vlib import snippet_C15valcache as _vc
+ENTRY["streams"] = ENTRY["streams"] + [_vc.STREAM]
+ENTRY.setdefault("lean_props_extra", []).append(_vc.EXTRA_LEAN)
+ENTRY["monitor_sigs"] = ENTRY["monitor_sigs"] + _vc.MONITOR_SIGS
+ENTRY["trusted_base"] = ENTRY["trusted_base"] + _vc.TRUSTED_BASE
+ENTRY["assumptions"] = ENTRY["assumptions"] + _vc.ASSUMPTIONS + [
+    "the validator cache hands out its own maps (no caller in /repo writes into them); a hostile caller is outside C15's quantifier: "
+    "the model follows the code as it is (taint), the driver counts such episodes as observed:shared_map_mutated and does not report "
+    "them; candidate hardening fixes/C15-valcache-clone.diff (theorem hit_returns_same_fixed)"]
+ENTRY["level_text"] += _vc.LEVEL_TEXT
